@@ -3,8 +3,9 @@
 # /repo's current working tree. Offline; needs only the Go toolchain and the
 # module cache already on disk.
 set -e
-GO=/root/go/pkg/mod/golang.org/toolchain@v0.0.1-go1.25.0.linux-amd64/bin/go
-[ -x "$GO" ] || GO=/opt/veriftools/go1.26.8/bin/go
+GO=/opt/veriftools/go1.26.8/bin/go
+[ -x "$GO" ] || GO=/root/go/pkg/mod/golang.org/toolchain@v0.0.1-go1.25.0.linux-amd64/bin/go
+[ -z "${VCHECK_GO:-}" ] || GO="$VCHECK_GO"
 export GOTOOLCHAIN=local GOFLAGS=-mod=mod GOPROXY=off GOSUMDB=off
 export PATH="$(dirname "$GO"):$PATH"
 V="${VCHECK_DIR:-/verif}"
